@@ -1,6 +1,7 @@
 package main
 
 import (
+	"go/types"
 	"fmt"
 	"go/token"
 	"strings"
@@ -10,12 +11,13 @@ import (
 
 func init() {
 	register("C04", func(r *Report) {
-		r.Explanation = "Decides the structure that is necessary for range, freshness, collision-freedom and refusal on exhaustion: (R1) the session's topic-ID allocator is an IDSequence over the constants 1..0xFFFE; (R2) every topic ID placed in an outgoing REGACK, SUBACK or REGISTER, and every key stored into the registered-topics map, originates from the allocator wrapper, from a key read back from that map, from the incoming packet's own predefined ID, or is the constant 0; (R3)-(R5) the allocator wrapper explored for every combination of (exhausted flag, overflow reported by the 1st/2nd Next, ID already predefined at the 1st/2nd probe) returns an ID only when the flag is clear, no Next reported overflow and the last probe of GetTopicName(<client id>, <that very ID>) failed, and every path that observes an overflow sets the sticky flag that all later calls test first; (R6) who may write the registered-topics map (shared with C01/C02): only the client-REGISTER/SUBSCRIBE path with a fresh ID and the client's own name, and the REGACK continuation with the ID and name of the stored REGISTER, guarded by ReturnCode == accepted, and no binding is ever deleted, swapped or reset; (R7) the ID sequence's state is written only by its constructor and by Next, and the session calls nothing but Next on it (no 'release'). Not decided: the arithmetic of IDSequence.Next (C29)."
+		r.Explanation = "Decides the structure that is necessary for range, freshness, collision-freedom and refusal on exhaustion: (R1) the session's topic-ID allocator is an IDSequence over the constants 1..0xFFFE; (R2) every topic ID placed in an outgoing REGACK, SUBACK or REGISTER, and every key stored into the registered-topics map, originates from the allocator wrapper, from a key read back from that map, from the incoming packet's own predefined ID, or is the constant 0; (R3)-(R5) the allocator wrapper explored for every combination of (exhausted flag, overflow reported by the 1st/2nd Next, ID already predefined at the 1st/2nd probe) returns an ID only when the flag is clear, no Next reported overflow and the last probe of GetTopicName(<client id>, <that very ID>) failed, and every path that observes an overflow sets the sticky flag that all later calls test first; (R6) who may write the registered-topics map (shared with C01/C02): only the client-REGISTER/SUBSCRIBE path with a fresh ID and the client's own name, and the REGACK continuation with the ID and name of the stored REGISTER, guarded by ReturnCode == accepted, and no binding is ever deleted, swapped or reset; (R7) the ID sequence's state is written only by its constructor and by Next, and the session calls nothing but Next on it (no 'release'); (R8) at every call of the allocator (and of the functions that pass its result on) the ID is used only where the error of that call was compared with nil, or in a reply whose return code is a refusal whenever the error may be non-nil. Not decided: the arithmetic of IDSequence.Next (C29)."
 		r.floor("R1", 1)
 		r.floor("R2", 4)
 		r.floor("R3", 8)
 		r.floor("R6", 3)
 		r.floor("R7", 2)
+		r.floor("R8", 3)
 	}, checkC04)
 	register("C02", func(r *Report) {
 		r.Explanation = "Decides: (R1) the MQTT-SN PUBLISH built for a broker PUBLISH takes Data, QoS, Retain, DUP and message ID from exactly the corresponding fields of the MQTT packet (traced through the positional constructor, so swapped arguments are caught); (R2) the (topic-ID type, topic ID) pair of every PUBLISH handed to the sender is one of (short, EncodeShortTopic(name)) under IsShortTopic(name), (registered, key found in the registered map), (predefined, GetTopicID(<client id>, name) on ok), or (registered, fresh ID) on the needs-register path - explored per path with symbolic IDs; (R3) on the needs-register path the only packet handed to the sender is a REGISTER carrying that fresh ID and the broker's topic name, and the PUBLISH is sent only by the REGACK continuation, in state awaitingRegack, for ReturnCode == accepted, after the (ID -> name) pair of the stored REGISTER was stored in the registered map; a rejected or out-of-state REGACK stores and sends nothing; (R4) who may write the registered-topics map (shared with C01/C04); the lookup consistency of R2 is C05. Not decided: that the client accepted the REGISTER (history), delivery under loss (C16)."
@@ -374,6 +376,7 @@ func checkC04(c *Ctx, r *Report) {
 		return
 	}
 	r.fn(alloc)
+	c.checkAllocatorErrorDiscipline(r, alloc)
 	// R1: constants
 	n1 := 0
 	for _, f := range c.repoFuncs("gateway") {
@@ -862,5 +865,150 @@ func (c *Ctx) checkRegackContinuation(r *Report, m *gwModel) {
 				}
 			}
 		}
+	}
+}
+
+// checkAllocatorErrorDiscipline (C04-R8): "refused rather than served" on exhaustion. At every call of the allocator
+// wrapper - and of every gateway function that returns (uint16, error) by passing on an allocating call - the ID result
+// is used only where the error of that very call is known to be nil (a nil comparison on every path), or as the
+// argument of a reply constructor whose return-code argument is a non-accepted constant on every path on which the
+// error may be non-nil. A test that recognises only some errors (errors.Is, a type switch) leaves an accepted reply
+// with the zero ID for the others.
+func (c *Ctx) checkAllocatorErrorDiscipline(r *Report, alloc *ssa.Function) {
+	allocating := map[*ssa.Function]bool{alloc: true}
+	for changed := true; changed; {
+		changed = false
+		for _, f := range c.repoFuncs("gateway") {
+			if allocating[f] || f.Signature.Results().Len() != 2 {
+				continue
+			}
+			if b, ok := f.Signature.Results().At(0).Type().Underlying().(*types.Basic); !ok || b.Kind() != types.Uint16 {
+				continue
+			}
+			allInstrs(f, func(i ssa.Instruction) {
+				if ci, ok := i.(ssa.CallInstruction); ok && allocating[staticCallee(ci.Common())] {
+					if !allocating[f] {
+						allocating[f] = true
+						changed = true
+					}
+				}
+			})
+		}
+	}
+	nilGuard := func(gs []Guard, e ssa.Value) bool {
+		for _, g := range gs {
+			x, y, op, ok := cmpGuard(g)
+			if ok && op == token.EQL && ((x == e && isNilConst(y)) || (y == e && isNilConst(x))) {
+				return true
+			}
+		}
+		return false
+	}
+	n := 0
+	for _, f := range c.repoFuncs("gateway") {
+		allInstrs(f, func(i ssa.Instruction) {
+			call, ok := i.(*ssa.Call)
+			if !ok || !allocating[staticCallee(&call.Call)] || call.Referrers() == nil {
+				return
+			}
+			var idv, errv ssa.Value
+			for _, u := range *call.Referrers() {
+				if ex, ok := u.(*ssa.Extract); ok {
+					if ex.Index == 0 {
+						idv = ex
+					} else {
+						errv = ex
+					}
+				}
+			}
+			n++
+			r.fn(f)
+			key := fmt.Sprintf("%s:id-of(%s)-used-only-on-nil-error", fnKey(f), staticCallee(&call.Call).Name())
+			if idv == nil {
+				r.ok("R8", key, c.instrPos(i), "the ID result is not used")
+				return
+			}
+			if errv == nil {
+				r.bad("R8", key, c.instrPos(i), "the error of the topic-ID allocation is discarded and the ID used: on exhaustion the zero ID is served as if it were a fresh one")
+				return
+			}
+			bad := ""
+			var visit func(v ssa.Value, d int)
+			seen := map[ssa.Value]bool{}
+			visit = func(v ssa.Value, d int) {
+				if seen[v] || v.Referrers() == nil || d > 4 {
+					return
+				}
+				seen[v] = true
+				for _, u := range *v.Referrers() {
+					switch x := u.(type) {
+					case *ssa.DebugRef:
+						continue
+					case *ssa.Phi:
+						for k, e := range x.Edges {
+							if e == v && !nilGuard(guardsOfEdge(x.Block().Preds[k], x.Block()), errv) {
+								bad = c.instrPos(u) + ": the ID flows on although the error was not tested for nil on this path"
+							}
+						}
+						continue
+					}
+					if nilGuard(guardsOf(u.Block()), errv) {
+						continue
+					}
+					// not under err == nil: only a refusing reply may take it
+					if cu, ok := u.(ssa.CallInstruction); ok {
+						if g := staticCallee(cu.Common()); g != nil && fnPkgPath(g) == pkPackets1 {
+							rcOK := false
+							ps := g.Signature.Params()
+							for k := 0; k < ps.Len() && k < len(cu.Common().Args); k++ {
+								nt, isN := ps.At(k).Type().(*types.Named)
+								if !isN || nt.Obj().Name() != "ReturnCode" {
+									continue
+								}
+								rcOK = true
+								var chk func(rc ssa.Value, d int)
+								chk = func(rc ssa.Value, d int) {
+									if kk, isC := constInt(rc); isC {
+										if kk == 0 {
+											rcOK = false
+										}
+										return
+									}
+									if ph, isP := rc.(*ssa.Phi); isP && d < 3 {
+										for ei, ev := range ph.Edges {
+											if kk, isC := constInt(ev); isC && kk == 0 {
+												if !nilGuard(guardsOfEdge(ph.Block().Preds[ei], ph.Block()), errv) {
+													rcOK = false
+												}
+												continue
+											}
+											chk(ev, d+1)
+										}
+										return
+									}
+									rcOK = false
+								}
+								chk(cu.Common().Args[k], 0)
+							}
+							if rcOK {
+								continue
+							}
+							bad = c.instrPos(u) + ": a reply is built from the ID with return code 'accepted' on a path on which the allocation error was not compared with nil (any error the test does not recognise yields an accepted reply with ID 0)"
+							continue
+						}
+					}
+					if _, isRet := u.(*ssa.Return); isRet {
+						bad = c.instrPos(u) + ": the ID is returned on a path on which the error was not tested for nil"
+						continue
+					}
+					bad = c.instrPos(u) + ": the ID is used (" + u.String() + ") on a path on which the allocation error was not compared with nil"
+				}
+			}
+			visit(idv, 0)
+			r.cond(bad == "", "R8", key, c.instrPos(i), "every use of the ID is under 'error == nil' of this call, or a reply whose return code is a refusal whenever the error may be non-nil", bad)
+		})
+	}
+	if n == 0 {
+		r.undecided("R8", "allocator-calls", "-", "no call of the topic-ID allocator found")
 	}
 }
